@@ -1015,9 +1015,66 @@ impl Prop for ServerProp {
                     return Err(("C18/waiting-bound-exceeded".into(), format!("client {} waited for {others} other calls; bound is {} connections x ({t} transitions + 1)", spec.cid, n_open_max)));
                 }
             }
+            // (3) The same question with a *flooder* as the waiting party: each of its calls that is
+            // completely readable (its whole burst was delivered) waits from the moment its previous
+            // call was handled; until it is handled itself nobody else may be served twice while the
+            // connection set is unchanged. Not in worlds with the cooperative-yield transport (there a
+            // connection's call needs two polls and only single callers are judged, see `rule`).
+            let mut flooder_intervals = 0u64;
+            if !sc.yield_first && sc.real.iter().all(|r| r.is_none()) {
+                let ats: Vec<u64> = run.handled.iter().map(|h| h.at).collect();
+                let mut changes: Vec<u64> = w.set_changes.clone();
+                changes.sort();
+                for (ci, spec) in sc.clients.iter().enumerate() {
+                    if sc.singles.contains(&ci) || sc.late[ci].is_some() || spec.calls.len() < 2 || !spec.faults.is_empty() {
+                        continue;
+                    }
+                    if spec.calls.iter().any(|k| matches!(k, CallSpec::Stream { .. } | CallSpec::Deferred { .. })) {
+                        continue;
+                    }
+                    let info = &infos[ci];
+                    let Some(accepted) = w.accepts.iter().find(|(_, p)| *p == info.c2s).map(|(q, _)| *q) else { continue };
+                    let mine: Vec<u64> = run.handled.iter().filter(|h| h.cid == spec.cid).map(|h| h.at).collect();
+                    let dels = &w.pipes[info.c2s].deliveries;
+                    for (i, h) in mine.iter().enumerate() {
+                        let Some(end) = info.call_end_offsets.get(i) else { break };
+                        let Some(readable) = dels.iter().find(|(_, d)| *d >= *end).map(|(q, _)| *q) else { break };
+                        let start = readable.max(accepted).max(if i > 0 { mine[i - 1] } else { 0 });
+                        if *h <= start {
+                            continue;
+                        }
+                        let a = ats.partition_point(|x| *x <= start);
+                        let b = ats.partition_point(|x| *x < *h);
+                        if b <= a + 1 {
+                            continue;
+                        }
+                        flooder_intervals += 1;
+                        let mut per: std::collections::BTreeMap<u32, u32> = Default::default();
+                        let mut next_change = changes.partition_point(|x| *x <= start);
+                        for x in &run.handled[a..b] {
+                            while next_change < changes.len() && changes[next_change] < x.at {
+                                per.clear();
+                                next_change += 1;
+                            }
+                            if x.cid == spec.cid {
+                                continue;
+                            }
+                            let n = per.entry(x.cid).or_insert(0);
+                            *n += 1;
+                            if *n >= 2 {
+                                return Err((
+                                    "C18/two-calls-from-one-connection-while-another-waits".into(),
+                                    format!("client {} (a pipelining client whose whole burst had been delivered) had its call {i} completely readable from event {start} until it was handled at {h}; with the connection set unchanged, connection {} was served {n} calls in between", spec.cid, x.cid),
+                                ));
+                            }
+                        }
+                    }
+                }
+            }
             drop(w);
             let mut w = world.borrow_mut();
             w.stat_add("fairness_intervals_checked", sc.singles.len() as u64);
+            w.stat_add("fairness_intervals_checked_with_a_pipelining_client_waiting", flooder_intervals);
         }
         Ok(world.borrow().scenario.clone())
     }
